@@ -846,9 +846,11 @@ ol, ul { padding-left: 2em; }
         for name in self.stylestack:
             styles = self.styledict.get(name)
             css2 = self.cs.convert_styles(styles)
-            self.writeout("%s {\n" % name)
+            # The style sheet is written inside a CDATA section: a ']]>' in a style
+            # name or value must not end it
+            self.writeout(("%s {\n" % name).replace(']]>', ']]]]><![CDATA[>'))
             for style, val in css2.items():
-                self.writeout("\t%s: %s;\n" % (style, val) )
+                self.writeout(("\t%s: %s;\n" % (style, val)).replace(']]>', ']]]]><![CDATA[>'))
             self.writeout("}\n")
 
     def generate_footnotes(self):
